@@ -58,12 +58,11 @@ def scan_forbidden():
     """No Admitted/Axiom/... anywhere in the development (comments are stripped first).
     `Variable`/`Hypothesis` are allowed inside a Section only."""
     bad = []
-    for sub in ('theories', 'proofs', 'props'):
-        d = os.path.join(COQ, sub)
-        for fn in sorted(os.listdir(d)):
-            if not fn.endswith('.v'):
-                continue
-            src = open(os.path.join(d, fn)).read()
+    registered = [l.strip() for l in open(os.path.join(COQ, '_CoqProject')) if l.strip().endswith('.v')]
+    for rel in registered:
+        sub, fn = os.path.split(rel)
+        if True:
+            src = open(os.path.join(COQ, rel)).read()
             src = strip_comments(src)
             depth = 0
             for ln, line in enumerate(src.splitlines(), 1):
